@@ -1,6 +1,7 @@
 /- Helper lemmas for the end-to-end statement of C17: the recommender as a whole. -/
 import Paroxy.Proofs.Report
 import Paroxy.Proofs.ReportOrder
+import Paroxy.Proofs.Dict
 namespace Paroxy.Report
 open Paroxy Paroxy.Filter Paroxy.Costs
 
@@ -112,5 +113,44 @@ theorem assess_spec (strat : Strategy) (progs : List (Codes × TaxaSpans)) (K se
         refine ⟨rec, ?_, ?_⟩
         · rw [← this]; exact hd
         · rw [← this]
+
+/-! ### Totality: a report is always produced -/
+
+theorem mapM_some_of_forall {α β} (f : α → Option β) (l : List α) (h : ∀ a ∈ l, ∃ b, f a = some b) :
+    ∃ r, l.mapM f = some r := by
+  induction l with
+  | nil => exact ⟨[], rfl⟩
+  | cons a t ih =>
+    obtain ⟨b, hb⟩ := h a List.mem_cons_self
+    obtain ⟨r, hr⟩ := ih fun x hx => h x (List.mem_cons_of_mem _ hx)
+    exact ⟨b :: r, by simp [List.mapM_cons, hb, hr]⟩
+
+/-- `assess` succeeds when every selected path is a program. -/
+theorem assess_total (strat : Strategy) (progs : List (Codes × TaxaSpans)) (K sel : List Codes)
+    (h : ∀ p ∈ sel, p ∈ progs.map (·.1)) : ∃ l, assess strat progs K sel = some l := by
+  unfold assess
+  obtain ⟨r, hr⟩ := mapM_some_of_forall
+    (fun p => (dictGet? progs p).map fun rec => (programCost strat K rec, p)) sel (by
+      intro p hp
+      obtain ⟨v, hv⟩ := dictGet?_of_key_mem (h p hp)
+      exact ⟨_, by rw [hv]; rfl⟩)
+  exact ⟨r.mergeSort leCostPath, by rw [hr]; rfl⟩
+
+/-- `body` succeeds when every assessed path is a program. -/
+theorem body_total (i : Input) (h : ∀ cp ∈ i.assessed, cp.2 ∈ i.programs.map (·.1)) : ∃ b, body i = some b := by
+  rw [body_eq]
+  apply mapM_some_of_forall
+  intro g hg
+  have hmem : ∀ x ∈ g.2, x ∈ visible i := by
+    intro x hx
+    have hp := (groupBy_spec (groupKey i) (visible i)).2
+    exact hp.mem_iff.mp (List.mem_flatMap.mpr ⟨g, hg, hx⟩)
+  obtain ⟨secs, hs⟩ := mapM_some_of_forall (sectionOf i) (g.2.mergeSort (leMember i.sorting i.sloc)) (by
+    intro cp hcp
+    have h1 : cp ∈ g.2 := (List.mergeSort_perm g.2 _).mem_iff.mp hcp
+    have h2 : cp ∈ i.assessed := (List.mem_filter.mp (hmem cp h1)).1
+    obtain ⟨v, hv⟩ := dictGet?_of_key_mem (h cp h2)
+    exact ⟨_, by unfold sectionOf; rw [hv]; rfl⟩)
+  exact ⟨(g.1, secs), by unfold groupSections; rw [hs]; rfl⟩
 
 end Paroxy.Report
